@@ -7,6 +7,7 @@ import (
 	"fmt"
 	"sync"
 
+	"github.com/elementsproject/peerswap/lightning"
 	"github.com/elementsproject/peerswap/log"
 	"github.com/elementsproject/peerswap/premium"
 
@@ -996,9 +997,10 @@ func (s *SwapService) lockSwap(swapId, channelId string, fsm *SwapStateMachine) 
 	s.Lock()
 	defer s.Unlock()
 
-	// Check if we already have an active swap on the same channel
+	// Check if we already have an active swap on the same channel. Short
+	// channel ids are written with 'x' (CLN) or ':' (LND) as separator.
 	for id, swap := range s.activeSwaps {
-		if swap.Data.GetScid() == channelId {
+		if lightning.Scid(swap.Data.GetScid()).ClnStyle() == lightning.Scid(channelId).ClnStyle() {
 			return ActiveSwapError{channelId: channelId, swapId: id}
 		}
 	}
